@@ -43,6 +43,7 @@ type Exec struct {
 	smoke     bool // smoke mode: add "ensures false" reachability obligations
 	reached   map[string]bool
 	lemmaMode bool
+	loopEntryWM Term
 }
 
 func (x *Exec) fresh(prefix, sort string) Term {
@@ -1011,6 +1012,7 @@ func (x *Exec) enterBlock(st *State, from, to *ssa.BasicBlock) {
 				g := x.evalClauseBool(st, fr, inv, nil, 1)
 				x.oblige(st, fmt.Sprintf("loop%d.preserved%s", n, invLabel(inv, k)), nil, g, "loop invariant preserved: "+inv.Src)
 			}
+			x.loopEntryWM = lc.entryWM
 			x.frameCheck(st, fr, lc.base, lc.wm, spec.Modifies, lc.base, fmt.Sprintf("loop%d.frame", n))
 			return
 		}
@@ -1018,8 +1020,10 @@ func (x *Exec) enterBlock(st *State, from, to *ssa.BasicBlock) {
 			g := x.evalClauseBool(st, fr, inv, nil, 1)
 			x.oblige(st, fmt.Sprintf("loop%d.entry%s", n, invLabel(inv, k)), nil, g, "loop invariant on entry: "+inv.Src)
 		}
+		x.loopEntryWM = st.wmNow()
+		st.bumpWM() // earlier iterations may have allocated
 		x.havocLoop(st, fr, to, spec)
-		lc := &loopCtx{base: st.snapshot(), wm: st.wmNow(), spec: spec, header: to.Index}
+		lc := &loopCtx{base: st.snapshot(), wm: st.wmNow(), spec: spec, header: to.Index, entryWM: x.loopEntryWM}
 		fr.loopOn[to.Index] = lc
 		for _, inv := range spec.Invariants {
 			st.assume(x.evalClauseBool(st, fr, inv, nil, -1))
@@ -1212,6 +1216,25 @@ func funcKey(fn *ssa.Function) string {
 	o := fn
 	if fn.Origin() != nil {
 		o = fn.Origin()
+	}
+	if strings.HasSuffix(fn.Name(), "$bound") && len(fn.FreeVars) == 1 {
+		// bound method value: key by the receiver type
+		rt := fn.FreeVars[0].Type()
+		star := ""
+		if p, ok := rt.(*types.Pointer); ok {
+			rt = p.Elem()
+			star = "*"
+		}
+		if n, ok := types.Unalias(rt).(*types.Named); ok {
+			pk := ""
+			if n.Obj().Pkg() != nil {
+				pk = n.Obj().Pkg().Name() + "."
+			}
+			if star != "" {
+				return fmt.Sprintf("%s(*%s).%s", pk, n.Obj().Name(), fn.Name())
+			}
+			return fmt.Sprintf("%s%s.%s", pk, n.Obj().Name(), fn.Name())
+		}
 	}
 	pkg := ""
 	if o.Pkg != nil {
